@@ -90,10 +90,26 @@ class Session:
     def _apply(self, op: dict) -> str:
         t, c = self.tracks, self.case
         k = op["op"]
+        # how the caller REPRESENTS ids and edges (same meaning): plain ints / tuples, a list, a row of
+        # a numpy array, numpy integer scalars (what indexing an array or a DataFrame hands out)
+        rep = op.get("rep")
+
+        def E(u, v):  # noqa: N802
+            if rep == "list":
+                return [u, v]
+            if rep == "nparr":
+                return np.array([u, v])
+            if rep == "npscalar":
+                return (np.int64(u), np.int64(v))
+            return (u, v)
+
+        def N(n):  # noqa: N802
+            return np.int64(n) if (rep in ("nparr", "npscalar") and n is not None) else n
+
         if k == "addedge":
-            UserAddEdge(t, (op["u"], op["v"]), force=bool(op["force"]))
+            UserAddEdge(t, E(op["u"], op["v"]), force=bool(op["force"]))
         elif k == "deledge":
-            UserDeleteEdge(t, (op["u"], op["v"]))
+            UserDeleteEdge(t, E(op["u"], op["v"]))
         elif k == "addnode":
             attrs: dict[str, Any] = {}
             buf = None
@@ -105,9 +121,9 @@ class Session:
                 for key_ in self.__dict__.get("_attrs_mine", ()):
                     buf.pop(key_, None)
             if op.get("time") is not None:
-                attrs["time"] = op["time"]
+                attrs["time"] = N(op["time"])
             if op.get("tid") is not None:
-                attrs["track_id"] = op["tid"]
+                attrs["track_id"] = N(op["tid"])
             if op.get("lin") is not None:
                 attrs["lineage_id"] = op["lin"]
             if op.get("pos") is not None:
@@ -131,13 +147,13 @@ class Session:
                 self._attrs_mine = set(attrs)
                 buf.update(attrs)
                 attrs = buf
-            UserAddNode(t, op["id"], attrs, pixels=px, force=bool(op["force"]))
+            UserAddNode(t, N(op["id"]), attrs, pixels=px, force=bool(op["force"]))
         elif k == "delnode":
             if op.get("pixels") is not None:
                 # the optional `pixels` argument: "the pixels of the node, if known"
-                UserDeleteNode(t, op["n"], pixels=c.idx_tuple(op["pixels"]))
+                UserDeleteNode(t, N(op["n"]), pixels=c.idx_tuple(op["pixels"]))
             else:
-                UserDeleteNode(t, op["n"])
+                UserDeleteNode(t, N(op["n"]))
         elif k == "regfeat":
             # a custom feature is registered in the FeatureDict mid-session, through any of the
             # dict APIs a caller (or the importer: `.update`) may use
@@ -154,7 +170,7 @@ class Session:
             else:
                 t.features.setdefault(name, feat)
         elif k == "swap":
-            UserSwapPredecessors(t, (op["a"], op["b"]))
+            UserSwapPredecessors(t, E(op["a"], op["b"]))
         elif k == "paint":
             groups = paint_groups(c, t, op)
             idx = c.idx_tuple(op["pixels"])
@@ -173,7 +189,7 @@ class Session:
                 name = c.keyname[kk]
                 attrs[name] = ([float(v)] * (c.ndim - 1)) if (name == "pos" and c.cfg == "pos") else (
                     float(v) if kk in c.pos_keys and c.cfg == "axes" else v)
-            UserUpdateNodeAttrs(t, op["n"], attrs)
+            UserUpdateNodeAttrs(t, N(op["n"]), attrs)
         elif k == "undo":
             return "true" if t.undo() else "false"
         elif k == "redo":
@@ -756,6 +772,8 @@ def run_session(prop: str, spec: dict, rng: random.Random, nops: int, res: Resul
             res.count("session-shape:enable-assumed-then-recomputed")
         if queue is None and op["op"] == "addnode" and rng.random() < 0.35:
             op["reuse_attrs"] = 1   # the caller passes the same dict object it used for earlier adds
+        if queue is None and op["op"] in ("addedge", "deledge", "addnode", "delnode", "swap", "updattrs") and rng.random() < 0.3:
+            op["rep"] = rng.choice(["list", "nparr", "npscalar"])
         if prop in ("C07", "C09") and queue is None and op["op"] == "addnode" and case.cfg == "seg" and op.get("pixels") is None:
             op.pop("pos", None)  # a node without pixels is outside C07's consistent states (caller's choice)
         if prop == "C11" and queue is None and op["op"] == "paint" and op.get("value") and rng.random() < 0.15:
@@ -1756,6 +1774,215 @@ def reentrant_refresh_cases(prop: str, rng: random.Random, n: int, res: Result) 
 
 
 # ---------------------------------------------------------------------------------------------
+# C08 on LARGE masks and on IMPORTED objects
+#   large: one-pixel edits of a mask of > 100 000 pixels change area and centroid by less than 1e-5
+#          relative; the stored values must follow nevertheless (exact for area)
+#   imported: the object is built by the CSV importer with a label array and feature flags in the
+#          representations a caller's settings table hands out (True, 1, numpy.bool_), then edited
+# ---------------------------------------------------------------------------------------------
+def large_mask_cases(prop: str, rng: random.Random, n: int, res: Result) -> list[Failure]:
+    from funtracks.data_model import SolutionTracks
+    from funtracks.user_actions import UserUpdateSegmentation
+    fails: list[Failure] = []
+    seen: set = set()
+    for _ in range(n):
+        side = rng.randint(330, 380)
+        scale = rng.choice([None, [1.0, 0.5, 0.25], [1.0, 2.0, 1.0]])
+        seg = np.zeros((2, side + 6, side + 6), dtype=rng.choice(["int32", "uint32", "int64"]))
+        seg[0, 2:2 + side, 3:3 + side] = 1
+        seg[1, 2:14, 3:13] = 2
+        g = nx.DiGraph()
+        g.add_node(1, time=0)
+        g.add_node(2, time=1)
+        g.add_edge(1, 2)
+        t = SolutionTracks(g, segmentation=seg, scale=scale, ndim=3)
+        spacing = np.ones(2) if scale is None else np.array(scale[1:], dtype=float)
+        desc = {"large_mask": {"side": side, "scale": scale, "dtype": str(seg.dtype)}, "steps": []}
+
+        def problems():
+            out = []
+            for n_, tt in ((1, 0), (2, 1)):
+                m = t.segmentation[tt] == n_
+                cnt = int(m.sum())
+                area = t.get_node_attr(n_, "area")
+                exp_a = cnt * float(np.prod(spacing))
+                if cnt and (area is None or abs(float(area) - exp_a) > 1e-9 * max(1.0, exp_a)):
+                    out.append(f"area:node {n_} stored area {area} but its mask has {cnt} pixels x {float(np.prod(spacing))} = {exp_a}")
+                pos = t.get_node_attr(n_, "pos")
+                if cnt:
+                    c = np.argwhere(m).mean(axis=0) * spacing
+                    if pos is None or not np.allclose(np.asarray(pos, dtype=float), c, rtol=0, atol=1e-9 * max(1.0, float(np.abs(c).max()))):
+                        out.append(f"pos:node {n_} stored position {pos} != scaled centroid {c.tolist()}")
+            return out
+
+        def fail(sig, what):
+            s_ = f"{prop}|large-mask|{sig}"
+            if s_ not in seen:
+                seen.add(s_)
+                fails.append(Failure("oracle", prop, s_, f"large mask {desc}: {what}", {"large_mask_history": copy.deepcopy(desc)}))
+
+        for p_ in problems():
+            fail("construct|" + p_.split(":")[0], p_)
+        for _step in range(rng.randint(2, 4)):
+            kind = rng.choice(["grow", "shrink", "undo", "redo"])
+            try:
+                if kind == "grow":
+                    # one pixel of background next to the big node
+                    idx = (np.array([0]), np.array([rng.choice([0, 1, side + 2])]), np.array([rng.randrange(3, 3 + side)]))
+                    if t.segmentation[idx][0] != 0:
+                        continue
+                    t.segmentation[idx] = 1
+                    UserUpdateSegmentation(t, 1, [(idx, 0)], 1)
+                elif kind == "shrink":
+                    idx = (np.array([0]), np.array([rng.randrange(2, 2 + side)]), np.array([rng.randrange(3, 3 + side)]))
+                    if t.segmentation[idx][0] != 1:
+                        continue
+                    t.segmentation[idx] = 0
+                    UserUpdateSegmentation(t, 0, [(idx, 1)], 1)
+                elif kind == "undo":
+                    t.undo()
+                else:
+                    t.redo()
+            except Exception as e:  # noqa: BLE001
+                fail(f"{kind}|raised", f"{kind} raised {type(e).__name__}: {str(e)[:120]}")
+                break
+            desc["steps"].append(kind)
+            res.evaluations += 1
+            res.nontrivial.add(h([side, scale, desc["steps"]]))
+            for p_ in problems():
+                fail(f"{kind}|" + p_.split(":")[0], f"after {desc['steps']}: {p_}")
+        res.count("large-mask-cases")
+    return fails
+
+
+def narrow_dtype_iou_cases(prop: str, rng: random.Random, n: int, res: Result) -> list[Failure]:
+    """bulk IoU on a one-byte label array with MANY overlapping pairs between two frames: any
+    arithmetic on label values done in the array's own dtype wraps, and with 5-7 pairs per frame pair
+    two of them meet on one wrapped value in ~6 % of the cases"""
+    from funtracks.data_model import SolutionTracks
+    fails: list[Failure] = []
+    seen: set = set()
+    for _ in range(n):
+        k = rng.randint(5, 7)
+        dt = rng.choice(["uint8", "uint8", "int8"])
+        top = 255 if dt == "uint8" else 127
+        labs = rng.sample(range(1, top + 1), 2 * k)
+        seg = np.zeros((2, 4, 3 * k), dtype=dt)
+        g = nx.DiGraph()
+        exp = {}
+        for i in range(k):
+            a, b = labs[i], labs[k + i]
+            wa, wb = rng.randint(1, 3), rng.randint(1, 3)      # widths: overlap = min, union = max (x 4 rows)
+            seg[0, :, 3 * i:3 * i + wa] = a
+            seg[1, :, 3 * i:3 * i + wb] = b
+            g.add_node(a, time=0)
+            g.add_node(b, time=1)
+            g.add_edge(a, b)
+            exp[(a, b)] = min(wa, wb) / max(wa, wb)
+        try:
+            t = SolutionTracks(g, segmentation=seg, ndim=3)
+            t.enable_features(["iou"])
+            t.disable_features(["iou"])
+            t.enable_features(["iou"])
+        except Exception as e:  # noqa: BLE001
+            res.count(f"narrow-dtype:raised:{type(e).__name__}")
+            continue
+        res.evaluations += 1
+        res.count(f"narrow-dtype-iou-cases:{dt}")
+        res.nontrivial.add(h([dt, labs]))
+        for e_, v in exp.items():
+            got = t.get_edge_attr(e_, "iou")
+            if got is None or abs(float(got) - v) > 1e-9:
+                sig = f"{prop}|narrow-dtype|iou-not-current"
+                if sig not in seen:
+                    seen.add(sig)
+                    fails.append(Failure("oracle", prop, sig,
+                                         f"{dt} array, {k} overlapping pairs between two frames, iou enabled with recomputation: "
+                                         f"edge {e_} stores {got}, the masks overlap {v}",
+                                         {"narrow_dtype_case": {"dtype": dt, "labels": labs, "seg": seg.tolist()}}))
+    return fails
+
+
+def imported_flag_cases(prop: str, rng: random.Random, n: int, res: Result) -> list[Failure]:
+    import warnings as _w
+
+    import pandas as pd
+    from funtracks.import_export import CSVTracksBuilder
+    fails: list[Failure] = []
+    seen: set = set()
+    for _ in range(n):
+        spec = G.gen_case(rng, cfg="seg", with_ids=True, ndim=3)
+        for k_ in ("rename", "prebuilt", "prebuilt_no_lineage", "via", "seg_layout", "orphan_labels"):
+            spec.pop(k_, None)
+        spec["enable"] = []
+        if spec.get("scale") not in (None, [1.0] * 3) or not spec["nodes"]:
+            continue
+        case = F.Case(spec)
+        seg = np.array(spec["seg"], dtype=np.dtype(spec.get("seg_dtype", "int64"))).reshape(case.shape)
+        par = {e["v"]: e["u"] for e in spec["edges"]}
+        rows = []
+        for x in spec["nodes"]:
+            where = np.argwhere(seg[x["time"]] == x["id"])
+            if not len(where):
+                rows = []
+                break
+            rows.append({"time": x["time"], "id": x["id"], "parent_id": par.get(x["id"], -1), "seg_id": x["id"],
+                         "y": float(where[:, 0].mean()), "x": float(where[:, 1].mean())})
+        if not rows:
+            continue
+        df = pd.DataFrame(rows)
+        keys = rng.sample([F.K_AREA, F.K_CIRC, F.K_PERIM, F.K_ELL], rng.randint(1, 3))
+        style = rng.choice(["bool", "int", "numpy", "numpy"])
+        true_ = {"bool": True, "int": 1, "numpy": np.array([True])[0]}[style]
+        flags = {F.NAME[k]: true_ for k in keys}
+        eflags = {"iou": true_} if (prop == "C09" or rng.random() < 0.4) else None
+        desc = {"imported": {"flags": {k: repr(v) for k, v in flags.items()}, "edge_flags": None if eflags is None else {"iou": repr(true_)},
+                             "spec": {k: spec[k] for k in ("ndim", "shape", "seg", "seg_dtype", "nodes", "edges")}}, "steps": []}
+
+        def fail(sig, what):
+            s_ = f"{prop}|imported|{sig}"
+            if s_ not in seen:
+                seen.add(s_)
+                fails.append(Failure("oracle", prop, s_, f"imported with flags {desc['imported']['flags']} ({style}): {what}",
+                                     {"imported_history": copy.deepcopy(desc)}))
+        try:
+            with _w.catch_warnings():
+                _w.simplefilter("ignore")
+                b = CSVTracksBuilder()
+                b.prepare(df)
+                t = b.build(df, seg.copy(), node_features=flags, edge_features=eflags)
+        except Exception as e:  # noqa: BLE001
+            res.count(f"imported:build-raised:{type(e).__name__}")
+            continue
+        res.count(f"imported-cases:{style}")
+
+        def probs():
+            out = rp_problems(case, t, [F.K_POS] + keys) if prop == "C08" else []
+            if eflags is not None and prop in ("C08", "C09"):
+                out = out + iou_problems(case, t)
+            return out
+        for p_ in probs():
+            fail("after-import|" + p_.split(":")[0], p_)
+        ses = Session.__new__(Session)
+        ses.case, ses.tracks, ses.refresh, ses.payload = case, t, 0, None
+        for _step in range(rng.randint(1, 3)):
+            op = G.gen_op(rng, case, t, ["paint", "paint", "undo", "redo"])
+            try:
+                out = ses.apply(op)
+            except Hang:
+                break
+            desc["steps"].append({k: v for k, v in op.items() if k != "groups"} | {"_out": out})
+            res.evaluations += 1
+            if out.startswith("err:other"):
+                fail(f"{op['op']}|unexpected-exception", f"{op} raised {out}")
+                break
+            for p_ in probs():
+                fail(f"{op['op']}|" + p_.split(":")[0], f"after {desc['steps'][-3:]}: {p_}")
+        res.nontrivial.add(h([spec["nodes"], spec["edges"], sorted(flags), style]))
+    return fails
+
+
+# ---------------------------------------------------------------------------------------------
 # C10 at the level of primitive actions: a disabled feature keeps its stored values through
 # every primitive and its inverse — including the rare annotator branches (a node that is left
 # without any pixel, a node added without pixels)
@@ -2398,6 +2625,11 @@ def worker(args) -> Result:
             res.failures.append(f)
     if prop in ("C08", "C09") and fixed is None:
         guarded_family("plain-tracks", plain_tracks_cases, prop, random.Random(seed ^ 0x91A1), max(10, nsessions // 3), res)
+        guarded_family("imported", imported_flag_cases, prop, random.Random(seed ^ 0x1AF0), max(8, nsessions // 6), res)
+    if prop == "C08" and fixed is None:
+        guarded_family("large-mask", large_mask_cases, prop, random.Random(seed ^ 0xB16), 1, res)
+    if prop in ("C09", "C10") and fixed is None:
+        guarded_family("narrow-dtype-iou", narrow_dtype_iou_cases, prop, random.Random(seed ^ 0x8B17), 12, res)
     if prop in ("C01", "C02", "C03", "C04", "C05", "C06", "C07", "C08", "C09", "C11", "C20") and fixed is None:
         guarded_family("controller", controller_sessions, prop, random.Random(seed ^ 0xC7A1), max(6, nsessions // 8), res)
     if prop == "C20" and fixed is None:
